@@ -65,7 +65,12 @@ def honest_request(rid: str, start: dt.datetime, n: int, zsks_per_slot: list[lis
         inc = start + interval * j
         exp = inc + validity
         keys = zsks_per_slot[j]
-        sigs = [mk_sig(k, keys, inc, exp) for k in keys] if sign else []
+        if sign:
+            sigs = [mk_sig(k, keys, inc, exp) for k in keys]
+        else:   # the loader insists on a Signature element: a placeholder that is never verified
+            k0 = keys[0]
+            sigs = [{"id": k0["id"], "ttl": k0["ttl"], "alg": k0["alg"], "labels": 0, "ottl": k0["ttl"], "exp": exp, "inc": inc,
+                     "tag": k0["tag"], "name": ".", "data": b"\x01\x02"}]
         bundles.append({"id": f"{rid}-b{j}", "inc": inc, "exp": exp, "keys": keys, "sigs": sigs})
     return {"id": rid, "serial": 1, "domain": ".", "zsk": zskpol, "bundles": bundles}
 
